@@ -408,6 +408,7 @@ CONTRACTS = {
         params={'new_combination': 'list[str]',
                 'input_dataframe': {'__class__': 'DataFrame', 'columns': 'list[str]', 'nrows': 'int', 'data': 'FrameData', 'cells': 'const:"str"'},
                 'join_string': 'str'},
+        returns=['str', 'list[str]'],
         frame=True,
         lemma_map={'ensures.faithful': ['lpcat_faithful'], 'inv#1': []},
         requires=[
@@ -421,6 +422,7 @@ CONTRACTS = {
             ('faithful', 'all((result[1][i] == result[1][j]) == '
                          'all(input_dataframe[new_combination[c]].values[i] == input_dataframe[new_combination[c]].values[j] for c in range(len(new_combination))) '
                          'for i in range(input_dataframe.nrows) for j in range(input_dataframe.nrows))'),
+            ('faithful_packed', 'faithful_col(result[1], input_dataframe, new_combination)'),
         ],
         asserts={'after:combined_feature = combined_feature.apply': [
             ('hashed_concatenation', 'len(combined_feature) == input_dataframe.nrows and '
@@ -431,7 +433,7 @@ CONTRACTS = {
             ('prefix', 'all(combined_feature[i] + lpcat(input_dataframe, new_combination, i, t + 1) == lpcat(input_dataframe, new_combination, i, 0) '
                        'for i in range(input_dataframe.nrows))'),
         ])},
-        unfold=['lp', 'lpcat'], unfold_map={'ensures.': []},
+        unfold=['lp', 'lpcat'], unfold_map={'ensures.faithful_packed': ['faithful_col'], 'ensures.': []},
     ),
 
     # ---------------------------------------------------------------- C11: feature construction
@@ -516,5 +518,38 @@ CONTRACTS = {
                                                   'out_template_feature[i][1] == mask_type[1], "1", "0") for i in range(r))')]),
             6: dict(index='z', inv=[('rows', 'forall(lambda nm: implies(nm in new_feature_hash, len(new_feature_hash[nm]) == input_dataframe.nrows), "str")'), ('rule', 'forall(lambda nm: implies(nm in new_feature_hash, (exists(lambda a: exists(lambda b: exists(lambda v: (a in input_dataframe.columns) and (b in input_dataframe.columns) and nm == "SUBFEATURE-" + a + "&" + v and all(new_feature_hash[nm][r] == ite(input_dataframe[b].values[r] == v, input_dataframe[a].values[r] + "AND" + input_dataframe[b].values[r], "") for r in range(input_dataframe.nrows)), "str"), "str"), "str")) or (exists(lambda a: exists(lambda b: exists(lambda va: exists(lambda vb: (a in input_dataframe.columns) and (b in input_dataframe.columns) and nm == "SUBFEATURE|" + a + "|" + b + "-" + va + "&" + vb and all(new_feature_hash[nm][r] == ite(input_dataframe[a].values[r] == va and input_dataframe[b].values[r] == vb, "1", "0") for r in range(input_dataframe.nrows)), "str"), "str"), "str"), "str"))), "str")')]),
         },
+    ),
+
+    'compute_combined_features': dict(
+        strings='opaque',
+        params={'input_dataframe': {'__class__': 'DataFrame', 'columns': 'list[str]', 'nrows': 'int', 'data': 'FrameData', 'cells': 'const:"str"'}, 'pbar': 'inert', 'is_3mr': 'bool',
+                'args': {'__class__': 'args', 'interaction_order': 'int', 'label_column': 'str', 'reference_model_JSON': 'str', 'heuristic': 'str',
+                         'combination_number_upper_bound': 'int'}},
+        globals={'GLOBAL_PRIOR_COMB_COUNTS': 'counter[list[str]]'}, modifies=['GLOBAL_PRIOR_COMB_COUNTS'],
+        local_kinds={'new_feature_hash': 'dict[str,list[str]]', 'full_combination_space': 'list[list[str]]'},
+        inert=['del tmp_df'],
+        ghost_out={'g_space': 'list[list[str]]'}, ghost_bind={'g_space': 'full_combination_space'},
+        asserts={'after:ftr_name, combined_feature = combine_features': [('this_candidate', 'ftr_name == join_string.join(full_combination_space[q]) and len(combined_feature) == input_dataframe.nrows and faithful_col(combined_feature, input_dataframe, full_combination_space[q])')]},
+        requires=[
+            ('rows', 'input_dataframe.nrows >= 0'), ('cap', 'args.combination_number_upper_bound >= 0'),
+            ('distinct_columns', 'all(input_dataframe.columns[i] != input_dataframe.columns[j] for j in range(len(input_dataframe.columns)) for i in range(j))'),
+            ('no_reference_model', 'args.reference_model_JSON == ""'),
+        ],
+        ensures=[
+            ('original_columns_first', 'len(result.columns) >= len(old(input_dataframe).columns) and '
+                                       'all(result.columns[c] == old(input_dataframe).columns[c] for c in range(len(old(input_dataframe).columns)))'),
+            ('original_values_untouched', 'all(implies(not any(result.columns[m] == old(input_dataframe).columns[c] for m in range(len(old(input_dataframe).columns), len(result.columns))), '
+                                          'all(result[old(input_dataframe).columns[c]].values[i] == old(input_dataframe)[old(input_dataframe).columns[c]].values[i] for i in range(old(input_dataframe).nrows))) '
+                                          'for c in range(len(old(input_dataframe).columns)))'),
+            ('candidates_are_k_subsets_of_the_non_label_columns',
+             'len(g_space) <= args.combination_number_upper_bound and all(len(g_space[p]) == ite(is_3mr, 2, args.interaction_order) and '
+             'all((g_space[p][c] in old(input_dataframe).columns) and g_space[p][c] != args.label_column for c in range(len(g_space[p]))) for p in range(len(g_space)))'),
+            ('every_new_column_is_a_faithful_interaction',
+             'all(implies(not (result.columns[m] in old(input_dataframe).columns), '
+             f'any(result.columns[m] == ite(is_3mr, " AND_REL ", " AND ").join(g_space[p]) and all((result[result.columns[m]].values[i] == result[result.columns[m]].values[j]) == all(old(input_dataframe)[g_space[p][c]].values[i] == old(input_dataframe)[g_space[p][c]].values[j] for c in range(len(g_space[p]))) for i in range(old(input_dataframe).nrows) for j in range(old(input_dataframe).nrows)) for p in range(len(g_space)))) '
+             'for m in range(len(old(input_dataframe).columns), len(result.columns)))'),
+        ],
+        unfold_map={'ensures.every_new_column': ['faithful_col']},
+        loops={1: dict(index='q', inv=[('rows', 'forall(lambda nm: implies(nm in new_feature_hash, len(new_feature_hash[nm]) == input_dataframe.nrows), "str")'), ('rule', 'forall(lambda nm: implies(nm in new_feature_hash, any(nm == join_string.join(full_combination_space[p]) and faithful_col(new_feature_hash[nm], input_dataframe, full_combination_space[p]) for p in range(q))), "str")')])},
     ),
 }
